@@ -9,8 +9,12 @@ impl<T: Copy> Cell<Option<T>> {
     /// Cell::take: the value is replaced by the default (None)
     pub fn take(&mut self) -> (r: Option<T>) ensures r == old(self).v, final(self).v == None::<T> { let x = self.v; self.v = None; x }
 }
+impl<T> Cell<T> {
+    pub fn new(x: T) -> (r: Cell<T>) ensures r.v == x { Cell { v: x } }
+}
 pub struct RefCell<T> { pub v: T }
 impl<T> RefCell<T> {
+    pub fn new(x: T) -> (r: RefCell<T>) ensures r.v == x { RefCell { v: x } }
     pub fn borrow(&self) -> (r: &T) ensures *r == self.v { &self.v }
     pub fn borrow_mut(&mut self) -> (r: &mut T) ensures *r == old(self).v, *final(r) == final(self).v { &mut self.v }
 }
